@@ -34,11 +34,11 @@ Print Assumptions C14_seq_wrap_instance.
 
 (* ---- the source functions themselves: Gallina translations regenerated from /repo on every run (Gen/Translated.v)
    equal the model functions the theorems above are about, for every input, and never panic ---- *)
-From Trans Require Spec Equiv.
+From Trans Require SpecPow2 EquivPow2.
 
 (* the ring size test of newBuffer: powerOfTwo64 is true exactly on the powers of two *)
-Theorem C14_powerOfTwo : Trans.Spec.T_powerOfTwo.
-Proof. exact Trans.Equiv.powerOfTwo_equiv. Qed.
+Theorem C14_powerOfTwo : Trans.SpecPow2.T_powerOfTwo.
+Proof. exact Trans.EquivPow2.powerOfTwo_equiv. Qed.
 Print Assumptions C14_powerOfTwo.
 
 (* read off the source (tie T1): WriteTo hands the peeked block - a view into the ring - to the writer BEFORE it commits
@@ -46,3 +46,76 @@ Print Assumptions C14_powerOfTwo.
 Theorem C14_writeto_writes_before_commit : Gen.Tables.writeto_writes_before_commit = true.
 Proof. reflexivity. Qed.
 Print Assumptions C14_writeto_writes_before_commit.
+
+(* ---- service/buffer.go itself, in its sequential reading (tools/gentables/seq.go: one thread runs a method to
+   completion; locks, broadcasts and hook points do nothing, a Cond.Wait means the call blocks): the translated
+   methods equal the operations of Ring/Seq.v - the model the sequential correspondence runs and whose operations
+   Ring/Conc.v splits into atomic steps - on every ring state and for every argument, and never panic ---- *)
+From Trans Require SpecRing EquivRing.
+
+(* read off the source (tie T1): newBuffer makes mask = size - 1, allocates size bytes and rounds the size up to a
+   power of two - the well-formedness (ring_ok) the theorems below assume *)
+Theorem C14_src_constructor :
+  Gen.Tables.ring_ctor_mask_is_size_minus_1 = true /\ Gen.Tables.ring_ctor_buf_has_size_bytes = true
+  /\ Gen.Tables.ring_ctor_rounds_size_up = true.
+Proof. repeat split; reflexivity. Qed.
+Print Assumptions C14_src_constructor.
+
+Theorem C14_src_waitForWriteSpace : Trans.SpecRing.T_ring_waitForWriteSpace.
+Proof. exact Trans.EquivRing.ring_waitForWriteSpace. Qed.
+Print Assumptions C14_src_waitForWriteSpace.
+
+Theorem C14_src_Write : Trans.SpecRing.T_ring_Write.
+Proof. exact Trans.EquivRing.ring_Write. Qed.
+Print Assumptions C14_src_Write.
+
+Theorem C14_src_ringCopy : Trans.SpecRing.T_ring_ringCopy.
+Proof. exact Trans.EquivRing.ring_ringCopy. Qed.
+Print Assumptions C14_src_ringCopy.
+
+Theorem C14_src_WriteWait : Trans.SpecRing.T_ring_WriteWait.
+Proof. exact Trans.EquivRing.ring_WriteWait. Qed.
+Print Assumptions C14_src_WriteWait.
+
+Theorem C14_src_WriteCommit : Trans.SpecRing.T_ring_WriteCommit.
+Proof. exact Trans.EquivRing.ring_WriteCommit. Qed.
+Print Assumptions C14_src_WriteCommit.
+
+Theorem C14_src_Read : Trans.SpecRing.T_ring_Read.
+Proof. exact Trans.EquivRing.ring_Read. Qed.
+Print Assumptions C14_src_Read.
+
+Theorem C14_src_ReadPeek : Trans.SpecRing.T_ring_ReadPeek.
+Proof. exact Trans.EquivRing.ring_ReadPeek. Qed.
+Print Assumptions C14_src_ReadPeek.
+
+Theorem C14_src_ReadWait : Trans.SpecRing.T_ring_ReadWait.
+Proof. exact Trans.EquivRing.ring_ReadWait. Qed.
+Print Assumptions C14_src_ReadWait.
+
+Theorem C14_src_ReadCommit : Trans.SpecRing.T_ring_ReadCommit.
+Proof. exact Trans.EquivRing.ring_ReadCommit. Qed.
+Print Assumptions C14_src_ReadCommit.
+
+Theorem C14_src_Close_isDone_Len :
+  Trans.SpecRing.T_ring_Close /\ Trans.SpecRing.T_ring_isDone /\ Trans.SpecRing.T_ring_Len.
+Proof. exact (conj Trans.EquivRing.ring_Close (conj Trans.EquivRing.ring_isDone Trans.EquivRing.ring_Len)). Qed.
+Print Assumptions C14_src_Close_isDone_Len.
+
+(* ---- the sequential model is a lossless FIFO over every history of complete calls (Write, the writeMessage path,
+   Read, ReadPeek, ReadWait, ReadCommit, Close), with any arguments: together with the C14_src_* theorems above the
+   chain source -> Ring/Seq.v -> property is closed by proof for the sequential reading of service/buffer.go ---- *)
+From Ring Require SeqFifo ProofsSeqFifo.
+
+Theorem C14_seq_fifo : Ring.SeqFifo.seq_fifo.
+Proof. exact Ring.ProofsSeqFifo.seq_fifo_holds. Qed.
+Print Assumptions C14_seq_fifo.
+
+Theorem C14_seq_shows_next : Ring.SeqFifo.seq_shows_next.
+Proof. exact Ring.ProofsSeqFifo.seq_shows_next_holds. Qed.
+Print Assumptions C14_seq_shows_next.
+
+(* the ghost-augmented run is the model's run: same ring states *)
+Theorem C14_seq_ghost_follows_model : Ring.SeqFifo.gstep_ring.
+Proof. exact Ring.ProofsSeqFifo.gstep_ring_holds. Qed.
+Print Assumptions C14_seq_ghost_follows_model.
